@@ -100,10 +100,11 @@ pub fn emit(seed: u64, rounds: usize) {
             let res = catch(move || crate::macro_cases::run_arm(k, nch, &mut r2));
             let counts: Vec<u32> = COUNTS.with(|c| c.borrow().clone());
             let values: Vec<String> = VALUES.with(|v| v.borrow().clone());
+            // an argument the arm never evaluated has no recorded value: it is printed as MBad with count 0
             let used = values.iter().rposition(|s| !s.is_empty()).map(|p| p + 1).unwrap_or(0);
             let tree = match res { Some(Some(t)) => format!("(Some {})", textgen::tree_term(&t, &names)), _ => "None".to_string() };
             println!("@@CASE@@ M\n({}%nat, [{}], {}, [{}])", k,
-                     values[..used].join("; "), tree, counts[..used].iter().map(|c| format!("{}%nat", c)).collect::<Vec<_>>().join("; "));
+                     values[..used].iter().map(|s| if s.is_empty() { "MBad".to_string() } else { s.clone() }).collect::<Vec<_>>().join("; "), tree, counts[..used].iter().map(|c| format!("{}%nat", c)).collect::<Vec<_>>().join("; "));
         }
     }
 }
